@@ -3,7 +3,7 @@ SPEC = {
     "theorems": [
         "AM.Bucket.unexpired_le_cap", "AM.Bucket.listed_unexpired_le_cap", "AM.Bucket.resend_always_ok",
         "AM.Bucket.room_only_by_expiry", "AM.Bucket.evicted_was_expired", "AM.Bucket.reject_only_when_full_unexpired",
-        "AM.Bucket.stale_bucket_drop_safe", "AM.Bucket.refused_changes_nothing",
+        "AM.Bucket.stale_bucket_drop_safe", "AM.Bucket.refused_changes_nothing", "AM.Bucket.every_refusal_reported",
         "AM.Bucket.stale_bucket_drop_unsafe_old", "AM.Bucket.unexpired_le_cap_false_old", "AM.Bucket.resend_refused_old",
         "AM.Bucket.f4_history_repaired",
         "AM.SilLimits.count_le_max", "AM.SilLimits.set_count_bound", "AM.SilLimits.size_le_max",
